@@ -328,6 +328,14 @@ fn shard(seed: u64, shard: u64, n: u64) -> Tally {
                     t.count("direct_route_agrees");
                 }
             }
+            // … also when the authenticator was used for the credential's own (foreign) scope first
+            if i % 4 == 1 && parts.len() == 5 && (parts[2] != cfg.region || parts[3] != cfg.service) {
+                if let Some(v) = crate::mon::mon_direct_route_after(&case, &rec, parts[2], parts[3]) {
+                    t.violate(v);
+                } else {
+                    t.count("direct_route_after_use_for_the_credentials_own_scope_agrees");
+                }
+            }
             if rec.calls() > 0 {
                 t.count("provider_calls_checked");
             }
@@ -524,6 +532,9 @@ pub fn run(tier: Tier) -> i32 {
     ctx.gate("calendar sweep: every day of the year range accepted with its exact credential", tally.get("calendar_days_accepted"), ndays);
     ctx.gate("calendar sweep: neighbouring scope dates refused", tally.get("calendar_neighbour_dates_refused"), 2 * ndays);
     ctx.exhaustive("every calendar day of the swept years (exact scope date accepted; previous day and next year refused)", true);
+    if cfg!(feature = "unstable-api") {
+        ctx.gate("foreign-scope credentials decided alike by an authenticator that was first used for the credential's own scope", tally.get("direct_route_after_use_for_the_credentials_own_scope_agrees"), tier.n(3000, 100_000));
+    }
     ctx.gate("provider calls whose arguments were checked", tally.get("provider_calls_checked"), tier.n(500, 5000));
     let rep = Report {
         level: "exploration",
